@@ -241,6 +241,7 @@ class Translator:
         self.trace = []
         self._atom_args = {}
         self._ctor_env = {}
+        self.positive = set()                  # atoms known to be > 0 (constructor guards)
 
     def set_ctor_params(self, params):
         self._ctor_env = {p: Rat(p_atom(p)) for p in params}
@@ -263,13 +264,13 @@ class Translator:
                 rn, rd = math.isqrt(n), math.isqrt(d)
                 if rn * rn == n and rd * rd == d:
                     return Rat(p_const(Fraction(rn, rd)))
-            # sqrt(a*b...) of a single monomial with constant coefficient: split into sqrt of the factors
+            # sqrt(c * a*b**2...) of a single monomial: split into the factors; a**2 -> a only for atoms known to be positive
             if len(arg.n) == 1 and arg.d == p_const(1):
                 (m, cc), = arg.n.items()
-                if m and cc > 0 and all(e == 1 for _a, e in m):
+                if m and cc > 0 and all(e == 1 or (e % 2 == 0 and a in self.positive) for a, e in m):
                     out = self.apply('sqrt', Rat(p_const(cc))) if cc != 1 else Rat(p_const(1))
-                    for a, _e in m:
-                        out = out * self._mk_atom('sqrt', Rat(p_atom(a)))
+                    for a, e in m:
+                        out = out * (self._mk_atom('sqrt', Rat(p_atom(a))) if e == 1 else Rat(p_atom(a)).pow(e // 2))
                     return out
         if f == 'exp':
             c = arg.const()
@@ -363,10 +364,11 @@ class Translator:
                     params = [a.arg for a in fn.args.args[1:]]
                     if len(args) != len(params):
                         raise Unsupported(f'call {unparse(e)}: arity')
-                    r = main_return(fn)
-                    if r is None:
-                        raise Unsupported(f'{dci.name}.{fn.name} has no main return expression')
-                    return self.expr(r, dict(zip(params, args)), dci.name, depth + 1)
+                    crs = computing_returns(fn)
+                    if len(crs) != 1:
+                        raise Unsupported(f'{dci.name}.{fn.name} has {len(crs)} computed returns')
+                    env2 = path_env(self, fn, crs[0], dict(zip(params, args)), dci.name)
+                    return self.expr(crs[0].value, env2, dci.name, depth + 1)
             raise Unsupported(f'call {f}')
         raise Unsupported(type(e).__name__)
 
@@ -424,3 +426,97 @@ def ctor_field_defs(prog, cls):
                 if isinstance(x, ast.Attribute) and isinstance(x.ctx, ast.Store) and isinstance(x.value, ast.Name) and x.value.id == 'self':
                     counts[x.attr] = counts.get(x.attr, 0) + 1
     return {f: v for f, v in defs.items() if counts.get(f) == 1}, params
+
+
+def path_env(tr, fn, ret, env, cls):
+    """environment extended with the single-name assignments that precede `ret` on its path through fn"""
+    env = dict(env)
+
+    def find(stmts):
+        for i, st in enumerate(stmts):
+            if st is ret:
+                return [stmts[:i]]
+            for field in ('body', 'orelse', 'finalbody'):
+                v = getattr(st, field, None)
+                if isinstance(v, list) and not isinstance(st, (ast.FunctionDef, ast.ClassDef)):
+                    r = find(v)
+                    if r is not None:
+                        return [stmts[:i]] + r
+        return None
+    blocks = find(fn.body) or []
+    for blk in blocks:
+        for st in blk:
+            tgt = val = None
+            if isinstance(st, ast.Assign) and len(st.targets) == 1 and isinstance(st.targets[0], ast.Name):
+                tgt, val = st.targets[0].id, st.value
+            elif isinstance(st, ast.AnnAssign) and isinstance(st.target, ast.Name) and st.value is not None:
+                tgt, val = st.target.id, st.value
+            if tgt:
+                try:
+                    env[tgt] = tr.expr(val, env, cls)
+                except Unsupported:
+                    env.pop(tgt, None)
+    return env
+
+
+def positive_ctor_params(prog, cls):
+    """constructor parameters p with a guard `if p <= 0: raise` (or `not p > 0`) somewhere in the constructor chain"""
+    out = set()
+    for c in prog.mro(cls):
+        ci = prog.classes.get(c)
+        if ci is None or '__init__' not in ci.methods:
+            continue
+        for st in ast.walk(ci.methods['__init__']):
+            if isinstance(st, ast.If) and any(isinstance(x, ast.Raise) for x in st.body):
+                t = unparse(st.test)
+                for a in ci.methods['__init__'].args.args[1:]:
+                    if t in (f'{a.arg} <= 0', f'{a.arg} <= 0.0', f'not {a.arg} > 0', f'not {a.arg} > 0.0', f'0 >= {a.arg}', f'0.0 >= {a.arg}'):
+                        out.add(a.arg)
+    return out
+
+
+# ---------------------------------------------------------------------------------------------- differentiation
+def _d_atom(tr, a, var):
+    """derivative (Rat) of the atom a with respect to the atom name var"""
+    if a == var:
+        return Rat(p_const(1))
+    if '(' not in a or a not in tr._atom_args:
+        return Rat({})
+    f = a[:a.index('(')]
+    arg = tr._atom_args[a]
+    da = derivative(tr, arg, var)
+    if da.is_zero():
+        return Rat({})
+    me = Rat(p_atom(a))
+    if f == 'exp':
+        return me * da
+    if f == 'log':
+        return da / arg
+    if f == 'sqrt':
+        return da / (Rat(p_const(2)) * me)
+    if f == 'erf':
+        return Rat(p_const(2)) / tr.apply('sqrt', Rat(p_atom('pi'))) * tr.apply('exp', -(arg * arg)) * da
+    if f == 'erf_inv':
+        return tr.apply('sqrt', Rat(p_atom('pi'))) / Rat(p_const(2)) * tr.apply('exp', me * me) * da
+    raise Unsupported(f'derivative of {f}')
+
+
+def _d_poly(tr, p, var):
+    out = Rat({})
+    for m, c in p.items():
+        for i, (a, e) in enumerate(m):
+            da = _d_atom(tr, a, var)
+            if da.is_zero():
+                continue
+            rest = list(m)
+            rest[i] = (a, e - 1)
+            mono = tuple((x, k) for x, k in rest if k != 0)
+            out = out + Rat({mono: c * e}) * da
+    return out
+
+
+def derivative(tr, r, var):
+    dn, dd = _d_poly(tr, r.n, var), _d_poly(tr, r.d, var)
+    if dd.is_zero():
+        return dn / Rat(r.d)
+    return (dn * Rat(r.d) - Rat(r.n) * dd) / (Rat(r.d) * Rat(r.d))
